@@ -19,6 +19,8 @@
 (***************************************************************************)
 EXTENDS QuorumRead, Json
 
+CONSTANT GenCancel   \* FALSE: schedules without caller cancellation (-simulate otherwise cancels most walks early)
+
 VARIABLES hist,    \* <<obs, env, obs, env, ...>>
           pend0    \* initial pendingZones (for cfg.zorder)
 
@@ -57,7 +59,7 @@ SelectCommit == (parentCancelled /\ mainPc = "loop") => mainPc' = "returned"
 GNext == \/ \E i \in Inst : \E o \in {"ok", "err", "term"} :
               PostOK(i, o) /\ Env([a |-> "finish", i |-> i, o |-> o], Finish(i, o))
          \/ Env([a |-> "tick"], HedgeTick)
-         \/ Env([a |-> "cancel"], ParentCancel)
+         \/ GenCancel /\ Env([a |-> "cancel"], ParentCancel)
          \/ ~Quiet /\ IntNext /\ SelectCommit /\ UNCHANGED <<hist, pend0>>
 
 ZOrder == IF cfg.mode = "zone" /\ cfg.minimize
